@@ -448,8 +448,14 @@ impl TransactionBuilder {
 
             //just add first input, to cover needs of one input
             let input = available_inputs.pop().unwrap();
+            let input_fee = self.fee_for_input(
+                &input.output.address,
+                &input.input,
+                &input.output.amount,
+            )?;
             self.inputs.add_regular_utxo(&input)?;
             input_total = input_total.checked_add(&input.output.amount)?;
+            output_total = output_total.checked_add(&Value::new(&input_fee))?;
         }
 
         match strategy {
